@@ -80,7 +80,7 @@ def QS.step (c : QCfg) (s : QS) : QLbl → QS
     | (_, none) => s
     | (q1, some p) =>
       let ts := (s.q.items.head?.map Prod.fst).getD 0
-      let s := { s with q := q1, fwdLog := s.fwdLog ++ [{ dep := t, ts := ts, pkt := p, prev := s.prevDep }] }
+      let s := { s with q := q1, fwdLog := s.fwdLog ++ [({ dep := t, ts := ts, pkt := p, prev := s.prevDep } : Fwd)] }
       let s := re.foldl (fun s p => s.doArrive c p) s
       let r := s.q.sentFinish c t
       ({ s with q := r.1 }).applyEff r.2
